@@ -114,6 +114,14 @@ pub fn pcs_shape(p: &Params, mix: &[usize], s: usize, layout: usize) -> PcsShape
 /// admits them only with a one-coefficient final polynomial.
 pub fn pcs_extra_shapes() -> Vec<PcsShape> {
     let mut v = vec![];
+    // long final polynomials: log_final_poly_len 3..=5 (8, 16, 32 coefficients; the sweep proper
+    // stops at 2), folded by arity 2 and 4 from a matrix two or three levels above
+    for lfp in [3usize, 4, 5] {
+        for (max_log_arity, up) in [(1usize, 2usize), (2, 3)] {
+            let p = Params { log_blowup: 1, log_final_poly_len: lfp, max_log_arity, num_queries: 1, commit_pow_bits: 0, query_pow_bits: 0 };
+            v.push(PcsShape { params: p, rounds: vec![vec![MatSpec::new(lfp + up, 1, lfp % 2 == 0)]] });
+        }
+    }
     // wide folds: max_log_arity 4..=7 (the in-circuit one-hot selector has dedicated code up to
     // arity 16 and a generic arm beyond), one tall matrix folded by the full arity first, alone
     // and with a second matrix exactly one full fold below
